@@ -645,10 +645,13 @@ class SubFieldView(ArrayView):
         return (self.array & self.bit_mask) >> self.lsb
 
     def _do_comparison(self, value, comp):
-        if isinstance(value, (int, type(self.array.dtype))):
-            if value > self.max_value_allowed:
-                return np.zeros_like(self.array, bool)
-        return comp(self.array & self.bit_mask, value << self.lsb)
+        if isinstance(value, (int, np.integer)) and not isinstance(
+            value, (bool, np.bool_)
+        ):
+            # compare the masked, un-shifted byte with the shifted constant;
+            # a python int is used so that the shift cannot wrap around
+            return comp(self.array & self.bit_mask, int(value) << self.lsb)
+        return comp(self.masked_array(), value)
 
     def __array__(self, *args, **kwargs):
         ret = self.masked_array()
